@@ -1375,6 +1375,7 @@ class Generator:
 
 
 class _MolCheck(core.Check):
+    state_measure = 'distinct digests of the final state of the molecule pool (nodes, edges, interactions of every live object)'
     world = 'M'
     chunk = 50
     run_timeout = 60
